@@ -1119,6 +1119,31 @@ func accessSite(lines []string) (site string, harness bool) {
 			return short(fns[0]) + " (called by harness client)", false
 		}
 		if isRepoFn(fn) {
+			// a plain helper function (no receiver) is not the owner of the state it touches on behalf of a
+			// method: name the innermost enclosing method of the same package instead (fans.setLimit called by
+			// fans.(*HwMonFan).SetMinPwm is an access to the HwMonFan), so that extracting a helper does not
+			// turn a known pair into a new one
+			owner := fn
+			if !ownsState(short(fn)) {
+				pkg := short(fn)
+				if k := strings.Index(pkg, ".("); k > 0 {
+					pkg = pkg[:k]
+				} else if k := strings.LastIndex(pkg, "."); k > 0 {
+					pkg = pkg[:k]
+				}
+				for _, outer := range fns[i+1:] {
+					if !isRepoFn(outer) || !strings.HasPrefix(short(outer), pkg+".") {
+						break
+					}
+					if ownsState(short(outer)) {
+						owner = outer
+						break
+					}
+				}
+			}
+			if owner != fn {
+				return short(owner) + " via " + short(fn), false
+			}
 			if i == 0 {
 				return short(fn), false
 			}
@@ -1215,6 +1240,38 @@ func isRaceFamily(plan *PropertyPlan, name string) bool {
 
 var recvRe = regexp.MustCompile(`^(.*?\.\(\*?[A-Za-z0-9_]+\))\.`)
 
+// ownsState: the function is a method of an exported type (or belongs to a handler group): it names the
+// owner of the state it touches. Plain helper functions and methods of unexported helper types embedded in
+// the real owners (fans.(*fixedRangeFan), sensors.(*movingAvgGuard)) do not.
+func ownsState(fn string) bool {
+	if ownerGroup(fn) != "" {
+		return true
+	}
+	m := recvRe.FindStringSubmatch(fn)
+	if m == nil {
+		return false
+	}
+	t := m[1]
+	t = t[strings.LastIndex(t, "(")+1:]
+	t = strings.TrimPrefix(strings.TrimSuffix(t, ")"), "*")
+	return t != "" && t[0] >= 'A' && t[0] <= 'Z'
+}
+
+// ownerGroup names the handler groups that own state without being methods of it.
+func ownerGroup(fn string) string {
+	switch {
+	case strings.HasPrefix(fn, "internal/api.getFan"):
+		return "internal/api(fans)"
+	case strings.HasPrefix(fn, "internal/api.getCurve"):
+		return "internal/api(curves)"
+	case strings.HasPrefix(fn, "internal/api.getSensor"):
+		return "internal/api(sensors)"
+	case strings.HasPrefix(fn, "internal/persistence.persistence."):
+		return "internal/persistence(loaded map)"
+	}
+	return ""
+}
+
 // raceOwner reduces a call site to the owner of the state it touches: the
 // receiver type of a method, or the handler group of an API function.
 func raceOwner(site string) string {
@@ -1228,15 +1285,8 @@ func raceOwner(site string) string {
 	if m := recvRe.FindStringSubmatch(fn); m != nil {
 		return m[1]
 	}
-	switch {
-	case strings.HasPrefix(fn, "internal/api.getFan"):
-		return "internal/api(fans)"
-	case strings.HasPrefix(fn, "internal/api.getCurve"):
-		return "internal/api(curves)"
-	case strings.HasPrefix(fn, "internal/api.getSensor"):
-		return "internal/api(sensors)"
-	case strings.HasPrefix(fn, "internal/persistence.persistence."):
-		return "internal/persistence(loaded map)"
+	if g := ownerGroup(fn); g != "" {
+		return g
 	}
 	// closures: pkg.Func.func1 → pkg.Func
 	if i := strings.Index(fn, ".func"); i > 0 {
